@@ -433,7 +433,7 @@ class URL:
             )
 
         self = object.__new__(URL)
-        self._scheme = scheme
+        self._scheme = scheme = scheme.lower()
         _host: Union[str, None] = None
         if authority:
             if not authority.isascii():
